@@ -73,8 +73,36 @@ func TestDrv_CmdLoop(t *testing.T) {
 			}
 		}
 	}
+	// encode over a regular input file that ends inside a record (the results of a killed attack): whatever the command
+	// reports, its output file holds the complete records before the cut, each whole
+	for _, n := range []int{40, 200} {
+		for _, cd := range codecs {
+			if cd.name == "csv" {
+				continue // a CSV line has no frame: cut inside its last column it still reads as a record (outside C09's domain too)
+			}
+			c := &lcase{kind: "encode", n: n, in: cd, to: codecs[r.Intn(3)], signalMs: -1}
+			for i := 0; i < n; i++ {
+				c.rs = append(c.rs, vegeta.Result{Attack: "cl", Seq: uint64(i), Code: 200, Timestamp: time.Unix(1700000000, int64(i)*1e6),
+					Latency: time.Duration(i+1) * time.Millisecond, BytesIn: uint64(r.Intn(5000)), Body: []byte(fmt.Sprint("b", i)),
+					Headers: map[string][]string{"X-K": {fmt.Sprint("v", i)}}})
+			}
+			data, frames := encodeAll(cd, c.rs)
+			last := frames[n-1-r.Intn(n/3)]
+			cut := last["start"].(int) + 1 + r.Intn(last["end"].(int)-last["start"].(int)-1)
+			c.n = last["id"].(int) - 1 // complete records before the cut
+			k := len(cs)
+			c.fifo = filepath.Join(dir, fmt.Sprintf("cl%d.cut", k))
+			c.out = filepath.Join(dir, fmt.Sprintf("cl%d.out", k))
+			must(os.WriteFile(c.fifo, data[:cut], 0o644))
+			cs = append(cs, c)
+			ops = append(ops, map[string]any{"op": "encode", "files": []string{c.fifo}, "output": c.out, "to": c.to.name})
+		}
+	}
 	for _, c := range cs {
 		c := c
+		if c.signalMs < 0 {
+			continue // a regular file, nothing to feed
+		}
 		seed := r.Int63()
 		go func() {
 			fr := rand.New(rand.NewSource(seed))
@@ -105,8 +133,11 @@ func TestDrv_CmdLoop(t *testing.T) {
 	}
 	interrupted, partial := 0, 0
 	for i, c := range cs {
-		tr.Emit("Reset", KV{"kind": c.kind, "n": c.n, "signalled": c.signalMs > 0, "in": c.in.name, "to": c.to.name})
+		tr.Emit("Reset", KV{"kind": c.kind, "n": c.n, "signalled": c.signalMs > 0, "in": c.in.name, "to": c.to.name, "input_cut_inside_a_record": c.signalMs < 0})
 		e := str(res[i], "err")
+		if c.signalMs < 0 {
+			e = "" // the command may well report the damaged input; the question is what it left in the output file
+		}
 		if p := str(res[i], "panic"); p != "" {
 			e = "panic: " + p
 		}
